@@ -15,8 +15,10 @@ CONSTANTS
     MaxChanges = 0
     MaxPend = 1
     MaxConfigs = 1
+    MaxRestores = 0
+    StaleRef = FALSE
     None = None
 SYMMETRY SymClients
-INVARIANTS TypeOK OnlyIdleExpire ActiveNeverExpires ExpiredSessionGone NickUnique
+INVARIANTS TypeOK OnlyIdleExpire ActiveNeverExpires SweepsAllIdle ExpiredSessionGone NickUnique
 PROPERTIES FollowersNeverPropose
 CHECK_DEADLOCK FALSE
